@@ -279,7 +279,11 @@ func explain(in, out string, cands []cand, rx relax) bool {
 			return true
 		}
 		covered := 0
-		var mark [256]bool
+		var markArr [256]bool
+		mark := markArr[:]
+		if b-a > len(markArr) {
+			mark = make([]bool, b-a)
+		}
 		for i := range cands {
 			c := &cands[i]
 			if c.p < a || c.p >= b || !c.broad(rx.allowSlash, rx.allowNumeric) {
@@ -317,7 +321,7 @@ func explain(in, out string, cands []cand, rx relax) bool {
 			ok = true
 		}
 		if !ok && j+len(mask) <= m && out[j:j+len(mask)] == mask {
-			for e := i + 1; e <= n && e-i <= 255; e++ {
+			for e := i + 1; e <= n; e++ {
 				if !rx.anySpan && in[e-1] != '@' && !isA[in[e-1]] {
 					break
 				}
@@ -335,4 +339,42 @@ func explain(in, out string, cands []cand, rx relax) bool {
 		return ok
 	}
 	return f(0, 0)
+}
+
+// uniqueExpected returns the only output the reference admits for a text, when there is exactly one: every candidate
+// that may be redacted at all (BROAD) is a CORE address whose bytes that must disappear are its whole extent (no
+// tolerated edge bytes such as a trailing dot or a leading '-'), and the extents of these candidates do not overlap.
+// Then a redacted span can neither be shorter (the core bytes must go) nor longer (it must stay inside the extent of a
+// candidate whose '@' it contains, and an extent holds no other '@'), so the output is the text with each of these
+// extents replaced by REDACTED. Linear; used for texts too long for the decomposition search and as a cross-check of it.
+func uniqueExpected(in string, cands []cand) (string, bool) {
+	last := 0
+	n := 0
+	for i := range cands {
+		c := &cands[i]
+		if !c.broad(false, 0) {
+			continue
+		}
+		if !c.core || c.cs != c.ls || c.ce != c.re || c.ls < last {
+			return "", false
+		}
+		last = c.re
+		n++
+	}
+	if n == 0 {
+		return in, true
+	}
+	out := make([]byte, 0, len(in)+n*len(mask))
+	pos := 0
+	for i := range cands {
+		c := &cands[i]
+		if !c.broad(false, 0) {
+			continue
+		}
+		out = append(out, in[pos:c.ls]...)
+		out = append(out, mask...)
+		pos = c.re
+	}
+	out = append(out, in[pos:]...)
+	return string(out), true
 }
